@@ -6,10 +6,12 @@ mod c_inflights;
 mod c_quorum;
 mod c_memstorage;
 mod node;
+mod ptrace;
 mod sim;
 mod c_node;
 mod c_confchange;
 mod monitor;
+mod c_raftlog;
 
 fn main() {
     let args: Vec<String> = std::env::args().collect();
@@ -26,6 +28,7 @@ fn main() {
         "node" => c_node::main(rest),
         "confchange" => c_confchange::main(rest),
         "monitor" => monitor::main(rest),
+        "raftlog" => c_raftlog::main(rest),
         other => {
             eprintln!("unknown component {}", other);
             std::process::exit(2);
